@@ -21,6 +21,7 @@ TraceNext ==
        [] E.ev = "write" -> \E p \in Paths : cur[p] = E.t /\ Write(p, E.complete)
        [] E.ev = "chmod" -> \E p \in Paths : cur[p] = E.t /\ Chmod(p)
        [] E.ev = "rename" -> cur[E.p] = E.t /\ Rename(E.p)
+       [] E.ev = "unlink" -> \E p \in Paths : cur[p] = E.t /\ Abandon(p)                   \* only the run's own temp file may be removed
        [] E.ev = "exit" -> alive /\ (E.code = 0 => \A p \in Paths : phase[p] \in {"skip", "done"} \/ want[p] = "none") /\ Stutter   \* "none": the run produces nothing at p
        [] E.ev = "killed" -> Crash
        [] E.ev = "snapshot" -> (\A p \in Paths : fs[p] = E.fs[p]) /\ Stutter
